@@ -8,7 +8,7 @@ From Rigo Require Import Spec SpecProps InvFee.
 Local Open Scope Z_scope.
 
 Local Opaque two256 two255 two64 two63.
-Arguments Z.pow : simpl never.
+Local Arguments Z.pow : simpl never.
 
 (* ================================================================== sums over maps *)
 Lemma sumZ_with_app {A} (f : A -> Z) l k : sumZ_with f (l ++ k) = sumZ_with f l + sumZ_with f k.
@@ -1474,14 +1474,13 @@ Proof.
   destruct Hd as (l' & Hx & _). unfold evm_execute in Hx. rewrite He in Hx. discriminate.
 Qed.
 
-Lemma hist_step_deliver_ok S0 s gh t s' g :
-  deliver s t = (s', Ok g) -> run_ok s -> tx_wf t -> payload_wf t -> t_evm t = None ->
+Lemma hist_step_deliver_ok_native S0 s gh t s' g :
+  deliver s t = (s', Ok g) -> run_ok s -> tx_wf t -> payload_wf t -> native s t ->
   hist_inv S0 (s, POpen, gh) -> S0 + (gh_withdrawn gh + withdrawn_of t) < supply_bound ->
   hist_inv S0 (s', POpen, {| gh_withdrawn := gh_withdrawn gh + withdrawn_of t; gh_slashed := gh_slashed gh;
                              gh_burned := gh_burned gh |}).
 Proof.
-  intros Hd (Hu & Htot & Hpw & Hpar) Hwf Hpl Hevm Hinv Hbound.
-  pose proof (native_of_ok _ _ _ _ Hd Hevm) as Hn.
+  intros Hd (Hu & Htot & Hpw & Hpar) Hwf Hpl Hn Hinv Hbound.
   pose proof (withdrawn_of_nonneg _ Hpl) as Hwn.
   destruct (hist_inv_bal S0 s POpen gh (gh_withdrawn gh) Hinv Hpw ltac:(lia)) as (Htb & Hpend & Hsup & Hbal).
   destruct Hinv as (Heq & Hr & Hw & Hsl & Hbn & Hfs & Hfz).
@@ -1505,6 +1504,16 @@ Proof.
   split; [rewrite Hs', Hexact; lia|]. split; [exact Hr'|]. split; [lia|]. split; [exact Hsl|]. split; [exact Hbn|].
   split; [intros _; rewrite Hf'; apply add256_range|].
   rewrite (base_of_same _ _ Hc Hg). etransitivity; eassumption.
+Qed.
+
+Lemma hist_step_deliver_ok S0 s gh t s' g :
+  deliver s t = (s', Ok g) -> run_ok s -> tx_wf t -> payload_wf t -> t_evm t = None ->
+  hist_inv S0 (s, POpen, gh) -> S0 + (gh_withdrawn gh + withdrawn_of t) < supply_bound ->
+  hist_inv S0 (s', POpen, {| gh_withdrawn := gh_withdrawn gh + withdrawn_of t; gh_slashed := gh_slashed gh;
+                             gh_burned := gh_burned gh |}).
+Proof.
+  intros Hd Hok Hwf Hpl Hevm. apply (hist_step_deliver_ok_native _ _ _ _ _ _ Hd Hok Hwf Hpl).
+  apply (native_of_ok _ _ _ _ Hd Hevm).
 Qed.
 
 Lemma hist_step_deliver_fail S0 s gh t s' r :
@@ -1962,3 +1971,355 @@ Proof.
   { clear -Hs. subst s. eexists. eexists. split; [vm_compute; reflexivity|]. vm_compute. auto 10. }
   destruct Hnum as (s' & ups & He & Hn). exists s', ups. auto 10.
 Qed.
+
+(* F4: an observed effect that satisfies the oracle hypothesis: the call moves 7 units to the callee
+   and uses 25000 of 30000 gas at price 10 *)
+Example deliver_evm_supply_example :
+  let s := demo_s1 in
+  let e := {| e_ok := true; e_gas := 25000; e_created := None;
+              e_accts := [(1%N, 1000 * amountPerPower - 250000 - 7, 1); (2%N, 1000 * amountPerPower + 7, 0)] |} in
+  let t := {| t_type := TRX_CONTRACT; t_from := 1%N; t_to := 2%N; t_from_ok := true; t_to_ok := true; t_amount := 7;
+              t_price := 10; t_gas := 30000; t_nonce := 0; t_payload := PContract 21000; t_hash := 400%N;
+              t_sigok := true; t_evm := Some e |} in
+  exists s', deliver s t = (s', Ok 25000) /\ ~ native s t /\
+    evm_effect_fee_ok (work s) t (g_gasPrice (gparams s)) e 0 /\ bal_range (work s) /\
+    supply (work s') = supply (work s) - 250000 /\ b_feesum (bctx s') = 250000.
+Proof.
+  cbv zeta. eexists. split; [vm_compute; reflexivity|]. split; [vm_compute; discriminate|].
+  split.
+  { split; [|split; [zclosed|split; [|split; [lia|vm_compute; reflexivity]]]].
+    - cbn. repeat constructor; set_solver.
+    - intros x Hx. cbn [e_accts] in Hx. apply elem_of_cons in Hx as [->|Hx]; [zclosed|].
+      apply elem_of_list_singleton in Hx as ->. zclosed. }
+  split; [apply bal_range_decide; vm_compute; reflexivity|]. split; vm_compute; reflexivity.
+Qed.
+
+(* ================================================================== assumptions of the main results *)
+Print Assumptions deliver_native_supply.
+Print Assumptions deliver_fail_supply.
+Print Assumptions begin_block_supply.
+Print Assumptions end_block_supply.
+Print Assumptions commit_supply.
+Print Assumptions deliver_evm_supply.
+Print Assumptions C02_history.
+Print Assumptions C02_collision_refuted.
+Print Assumptions staking_truncation_refuted.
+
+(* ================================================================== S5 with EVM executions under the oracle hypothesis *)
+Lemma sum_distinct_le_map_sum {A} (f : A -> Z) (ks : list N) : forall m : gmap N A,
+  NoDup ks -> (forall k x, m !! k = Some x -> 0 <= f x) ->
+  sumZ_with (fun k => from_option f 0 (m !! k)) ks <= map_sum f m.
+Proof.
+  induction ks as [|k ks IH]; intros m Hnd Hnn; cbn [sumZ_with foldr].
+  - apply map_sum_nonneg. exact Hnn.
+  - apply NoDup_cons in Hnd as (Hk & Hnd).
+    assert (Hext : sumZ_with (fun k0 => from_option f 0 (m !! k0)) ks =
+                   sumZ_with (fun k0 => from_option f 0 (delete k m !! k0)) ks).
+    { apply sumZ_with_ext. intros k0 Hk0. rewrite lookup_delete_ne; [reflexivity|]. intros ->. contradiction. }
+    fold (sumZ_with (fun k0 => from_option f 0 (m !! k0)) ks). rewrite Hext.
+    assert (Hle : sumZ_with (fun k0 => from_option f 0 (delete k m !! k0)) ks <= map_sum f (delete k m)).
+    { apply IH; [exact Hnd|]. intros j x Hj. apply lookup_delete_Some in Hj as (_ & Hj). apply (Hnn j x Hj). }
+    rewrite map_sum_delete in Hle. lia.
+Qed.
+
+(* what an EVM execution destroys beyond the gas fee, read off the observed effect *)
+Definition evm_burn (s : state) (t : tx) : Z :=
+  if evm_path_of t (acct_of (work s) (t_to t)) then
+    match t_evm t with
+    | Some e => - sumZ_with (fun x : addr * Z * Z => x.1.2 - bal_of (work s) x.1.1) (e_accts e)
+                - e_gas e * g_gasPrice (gparams s)
+    | None => 0 end
+  else 0.
+
+(* a delivery the history theorem covers: Go-typed fields, and either the native path, or an EVM
+   call that fails (no effect), or an observed effect satisfying the oracle hypothesis *)
+Definition deliver_covered (s : state) (t : tx) : Prop :=
+  tx_wf t /\ payload_wf t /\
+  (native s t \/ t_evm t = None \/
+   exists e, t_evm t = Some e /\ evm_effect_fee_ok (work s) t (g_gasPrice (gparams s)) e (evm_burn s t)).
+
+Definition hstepE (x : state * phase * ghost) (o : sop) : option (state * phase * ghost) :=
+  let '(s, p, gh) := x in
+  match p, o with
+  | POpen, SDeliver t =>
+      match deliver s t with
+      | (s', Ok _) => Some (s', POpen, {| gh_withdrawn := gh_withdrawn gh + withdrawn_of t;
+                                          gh_slashed := gh_slashed gh; gh_burned := gh_burned gh + evm_burn s t |})
+      | (s', _) => Some (s', POpen, gh) end
+  | _, _ => hstep x o
+  end.
+
+Fixpoint hrunE (x : state * phase * ghost) (ops : list sop) : option (state * phase * ghost) :=
+  match ops with
+  | [] => Some x
+  | o :: r => match hstepE x o with Some y => hrunE y r | None => None end
+  end.
+
+Fixpoint covered (s : state) (ops : list sop) : Prop :=
+  match ops with
+  | [] => True
+  | o :: r => (match o with SDeliver t => deliver_covered s t | _ => True end) /\ covered (sstep s o) r
+  end.
+
+Lemma evm_burn_native s t : native s t -> evm_burn s t = 0.
+Proof. unfold native, evm_burn. intros ->. reflexivity. Qed.
+
+Lemma evm_path_withdrawn t r : evm_path_of t r = true -> withdrawn_of t = 0.
+Proof.
+  unfold evm_path_of, withdrawn_of. intros H. destruct (t_type t =? TRX_WITHDRAW) eqn:E; [|reflexivity].
+  apply Z.eqb_eq in E. rewrite E in H. discriminate H.
+Qed.
+
+Lemma hstepE_sstep s p gh o s' p' gh' : hstepE (s, p, gh) o = Some (s', p', gh') -> s' = sstep s o.
+Proof.
+  unfold hstepE. destruct p, o as [hd|t| |]; try apply hstep_sstep.
+  unfold sstep. destruct (deliver s t) as [s1 [x|e|pp]]; intros [= <- _ _]; reflexivity.
+Qed.
+
+Lemma deliver_evm_frozen s t s' g : deliver s t = (s', Ok g) -> ~ native s t -> frozen (work s') = frozen (work s).
+Proof.
+  intros Hd Hn.
+  apply deliver_ok_inv in Hd as (sender & lim' & _ & _ & _ & _ & Hd). cbv zeta in Hd.
+  rewrite receiver_of_eq in Hd. unfold native in Hn.
+  destruct (evm_path_of t (acct_of (work s) (t_to t))); [|contradiction Hn; reflexivity].
+  destruct Hd as (l' & He & ->). cbn [work with_bctx with_work].
+  change (work (with_lim (pre_state s t) lim')) with ((find_or_new (work s) (t_to t)).1) in He.
+  unfold evm_execute in He. destruct (t_evm t) as [e|]; [|discriminate]. destruct (e_ok e); [|discriminate].
+  cbn [negb] in He.
+  change (foldl _ (find_or_new (work s) (t_to t)).1 (e_accts e))
+    with (foldl evm_write (find_or_new (work s) (t_to t)).1 (e_accts e)) in He.
+  assert (Hf : frozen (foldl evm_write (find_or_new (work s) (t_to t)).1 (e_accts e)) = frozen (work s)).
+  { rewrite foldl_frozen_preserved by (intros l [[a b] n]; reflexivity). apply find_or_new_spec. }
+  destruct (e_created e); injection He as <-; exact Hf.
+Qed.
+
+Lemma hist_step_deliver_evm S0 s gh t s' g e :
+  deliver s t = (s', Ok g) -> ~ native s t -> t_evm t = Some e ->
+  evm_effect_fee_ok (work s) t (g_gasPrice (gparams s)) e (evm_burn s t) ->
+  run_ok s -> hist_inv S0 (s, POpen, gh) -> S0 + gh_withdrawn gh < supply_bound ->
+  hist_inv S0 (s', POpen, {| gh_withdrawn := gh_withdrawn gh + withdrawn_of t; gh_slashed := gh_slashed gh;
+                             gh_burned := gh_burned gh + evm_burn s t |}).
+Proof.
+  intros Hd Hn Hevm Hor (Hu & Htot & Hpw & Hpar) Hinv Hbound.
+  destruct (hist_inv_bal S0 s POpen gh (gh_withdrawn gh) Hinv Hpw ltac:(lia)) as (Htb & Hpend & Hsup & Hbal).
+  destruct Hinv as (Heq & Hr & Hw & Hsl & Hbn & Hfs & Hfz).
+  destruct supply_bound_lt as (Hb255 & _). pose proof two255_two256 as H25.
+  destruct (deliver_evm_supply _ _ _ _ _ _ Hd Hn Hevm Hor Hr) as (Hs' & Hr').
+  destruct (deliver_evm_gas _ _ _ _ Hd Hn) as (e' & He' & _ & Hg & Hf' & _).
+  rewrite Hevm in He'. injection He' as <-.
+  destruct (deliver_bctx _ _ _ _ Hd) as (_ & _ & _ & Hgp & Hc & _).
+  assert (Hw0 : withdrawn_of t = 0).
+  { unfold native in Hn. destruct (evm_path_of t (acct_of (work s) (t_to t))) eqn:Ep; [|contradiction Hn; reflexivity].
+    apply (evm_path_withdrawn _ _ Ep). }
+  destruct Hor as (Hnd & Hgas & Hrng & Hburn & Hsum).
+  (* the fee is bounded by what the touched accounts held *)
+  assert (Hold : sumZ_with (fun x : addr * Z * Z => bal_of (work s) x.1.1) (e_accts e) <= total_balance (work s)).
+  { rewrite total_balance_map_sum.
+    pose proof (sum_distinct_le_map_sum a_bal ((fun x : addr * Z * Z => x.1.1) <$> e_accts e) (accts (work s)) Hnd
+                  (fun k x Hk => proj1 (Hr k x Hk))) as Hle.
+    assert (Hre : sumZ_with (fun k => from_option a_bal 0 (accts (work s) !! k)) ((fun x : addr * Z * Z => x.1.1) <$> e_accts e)
+                  = sumZ_with (fun x : addr * Z * Z => bal_of (work s) x.1.1) (e_accts e)).
+    { clear. induction (e_accts e) as [|x xs IH]; [reflexivity|]. rewrite fmap_cons. cbn [sumZ_with foldr].
+      fold (sumZ_with (fun k => from_option a_bal 0 (accts (work s) !! k)) ((fun x : addr * Z * Z => x.1.1) <$> xs)).
+      fold (sumZ_with (fun x : addr * Z * Z => bal_of (work s) x.1.1) xs).
+      rewrite IH, bal_of_from_option. reflexivity. }
+    unfold addr in *. lia. }
+  assert (Hnew : 0 <= sumZ_with (fun x : addr * Z * Z => x.1.2) (e_accts e)).
+  { clear -Hrng. induction (e_accts e) as [|x xs IH]; cbn [sumZ_with foldr]; [lia|].
+    fold (sumZ_with (fun x : addr * Z * Z => x.1.2) xs).
+    assert (0 <= x.1.2 < two256) by (apply Hrng, elem_of_cons; auto).
+    assert (0 <= sumZ_with (fun x : addr * Z * Z => x.1.2) xs) by (apply IH; intros y Hy; apply Hrng, elem_of_cons; auto).
+    lia. }
+  assert (Hsplit : sumZ_with (fun x : addr * Z * Z => x.1.2 - bal_of (work s) x.1.1) (e_accts e) =
+                   sumZ_with (fun x : addr * Z * Z => x.1.2) (e_accts e)
+                   - sumZ_with (fun x : addr * Z * Z => bal_of (work s) x.1.1) (e_accts e)).
+  { clear. induction (e_accts e) as [|x xs IH]; cbn [sumZ_with foldr]; [lia|].
+    fold (sumZ_with (fun x : addr * Z * Z => x.1.2 - bal_of (work s) x.1.1) xs).
+    fold (sumZ_with (fun x : addr * Z * Z => x.1.2) xs).
+    fold (sumZ_with (fun x : addr * Z * Z => bal_of (work s) x.1.1) xs). lia. }
+  assert (Hprice : 0 <= g_gasPrice (gparams s)) by (destruct Hpar as ((Hx & _) & _); exact Hx).
+  assert (Hfeeb : 0 <= e_gas e * g_gasPrice (gparams s) <= total_balance (work s)).
+  { split; [apply Z.mul_nonneg_nonneg; lia|]. lia. }
+  cbn [pending] in *. specialize (Hfs eq_refl).
+  assert (Hexact : b_feesum (bctx s') = b_feesum (bctx s) + e_gas e * g_gasPrice (gparams s)).
+  { rewrite Hf'. rewrite mul256_small by lia. apply add256_small. lia. }
+  cbn [hist_inv pending gh_withdrawn gh_slashed gh_burned].
+  split; [rewrite Hs', Hexact, Hw0; lia|]. split; [exact Hr'|]. split; [lia|]. split; [exact Hsl|]. split; [lia|].
+  split; [intros _; rewrite Hf'; apply add256_range|].
+  rewrite (base_of_same _ _ Hc Hgp), (deliver_evm_frozen _ _ _ _ Hd Hn). exact Hfz.
+Qed.
+
+Lemma hstepE_withdrawn_mono s p gh o s' p' gh' :
+  hstepE (s, p, gh) o = Some (s', p', gh') ->
+  (match o with SDeliver t => payload_wf t | _ => True end) ->
+  gh_withdrawn gh <= gh_withdrawn gh'.
+Proof.
+  unfold hstepE. destruct p, o as [hd|t| |]; try apply hstep_withdrawn_mono.
+  destruct (deliver s t) as [s1 [x|e|pp]]; intros [= _ _ <-] Hp; cbn; try lia.
+  pose proof (withdrawn_of_nonneg _ Hp). lia.
+Qed.
+
+Lemma covered_payload s o r : covered s (o :: r) -> match o with SDeliver t => payload_wf t | _ => True end.
+Proof. intros (H & _). destruct o; try exact I. apply H. Qed.
+
+Lemma hrunE_withdrawn_mono ops : forall s p gh s' p' gh',
+  hrunE (s, p, gh) ops = Some (s', p', gh') -> covered s ops -> gh_withdrawn gh <= gh_withdrawn gh'.
+Proof.
+  induction ops as [|o ops IH]; intros s p gh s' p' gh'; cbn [hrunE].
+  - intros [= _ _ <-] _. lia.
+  - destruct (hstepE (s, p, gh) o) as [[[s1 p1] gh1]|] eqn:E; [|discriminate].
+    intros H Hcov. pose proof (covered_payload _ _ _ Hcov) as Ho. destruct Hcov as (_ & Hcov).
+    pose proof (hstepE_sstep _ _ _ _ _ _ _ E) as Hs1. subst s1.
+    pose proof (hstepE_withdrawn_mono _ _ _ _ _ _ _ E Ho) as H1.
+    pose proof (IH _ _ _ _ _ _ H Hcov) as H2. lia.
+Qed.
+
+Lemma hist_stepE S0 s p gh o s' p' gh' :
+  hstepE (s, p, gh) o = Some (s', p', gh') -> run_ok s ->
+  (match o with SDeliver t => deliver_covered s t | _ => True end) ->
+  hist_inv S0 (s, p, gh) -> S0 + gh_withdrawn gh' < supply_bound ->
+  hist_inv S0 (s', p', gh').
+Proof.
+  intros Hst Hok Ho Hinv Hbound.
+  assert (Hmono : gh_withdrawn gh <= gh_withdrawn gh').
+  { apply (hstepE_withdrawn_mono _ _ _ _ _ _ _ Hst). destruct o; try exact I. apply Ho. }
+  destruct p, o as [hd|t| |];
+    try (apply (hist_step S0 _ _ _ _ _ _ _ Hst Hok I Hinv Hbound)); try discriminate Hst.
+  destruct Ho as (Hwf & Hpl & Hcase). unfold hstepE in Hst.
+  destruct (deliver s t) as [s1 [x|e|pp]] eqn:Ed; injection Hst as <- <- <-.
+  - cbn [gh_withdrawn] in *.
+    assert (Hnat : native s t -> hist_inv S0 (s1, POpen,
+              {| gh_withdrawn := gh_withdrawn gh + withdrawn_of t; gh_slashed := gh_slashed gh;
+                 gh_burned := gh_burned gh + evm_burn s t |})).
+    { intros Hn. rewrite (evm_burn_native _ _ Hn), Z.add_0_r.
+      apply (hist_step_deliver_ok_native _ _ _ _ _ _ Ed Hok Hwf Hpl Hn Hinv). exact Hbound. }
+    destruct Hcase as [Hn|[Hnone|(e & Hevm & Hor)]].
+    + apply Hnat. exact Hn.
+    + apply Hnat. apply (native_of_ok _ _ _ _ Ed Hnone).
+    + destruct (evm_path_of t (acct_of (work s) (t_to t))) eqn:Ep; [|apply Hnat; exact Ep].
+      apply (hist_step_deliver_evm _ _ _ _ _ _ e Ed); try assumption; [|lia].
+      unfold native. rewrite Ep. discriminate.
+  - apply (hist_step_deliver_fail _ _ _ _ _ _ Ed); try assumption. intros g; discriminate.
+  - apply (hist_step_deliver_fail _ _ _ _ _ _ Ed); try assumption. intros g; discriminate.
+Qed.
+
+Lemma hist_runE S0 ops : forall s p gh s' p' gh',
+  hrunE (s, p, gh) ops = Some (s', p', gh') -> along run_ok s ops -> covered s ops ->
+  hist_inv S0 (s, p, gh) -> S0 + gh_withdrawn gh' < supply_bound ->
+  hist_inv S0 (s', p', gh').
+Proof.
+  induction ops as [|o ops IH]; intros s p gh s' p' gh'; cbn [hrunE along].
+  - intros [= <- <- <-] _ _ Hinv _. exact Hinv.
+  - destruct (hstepE (s, p, gh) o) as [[[s1 p1] gh1]|] eqn:E; [|discriminate].
+    intros H (Hok & Hal) Hcov Hinv Hbound. destruct Hcov as (Ho & Hcov).
+    pose proof (hstepE_sstep _ _ _ _ _ _ _ E) as Hs1. subst s1.
+    pose proof (hrunE_withdrawn_mono _ _ _ _ _ _ _ H Hcov) as Hmono.
+    apply (IH _ _ _ _ _ _ H Hal Hcov); [|exact Hbound].
+    apply (hist_stepE _ _ _ _ _ _ _ _ E Hok Ho Hinv). lia.
+Qed.
+
+Lemma hrunE_srun ops : forall s p gh s' p' gh', hrunE (s, p, gh) ops = Some (s', p', gh') -> s' = srun s ops.
+Proof.
+  induction ops as [|o ops IH]; intros s p gh s' p' gh'; cbn [hrunE].
+  - intros [= <- _ _]. reflexivity.
+  - destruct (hstepE (s, p, gh) o) as [[[s1 p1] gh1]|] eqn:E; [|discriminate].
+    intros H. apply hstepE_sstep in E. subst s1. apply IH in H. exact H.
+Qed.
+
+(* C02, history form, with contract calls: as [C02_history], but deliveries may also run the EVM
+   when the observed effect satisfies the oracle hypothesis [evm_effect_fee_ok]; what such a call
+   destroys beyond its gas fee ([evm_burn]) is accounted under [gh_burned]. *)
+Theorem C02_history_evm g ops s p gh :
+  hrunE (init_chain g, PIdle, ghost0) ops = Some (s, p, gh) ->
+  (forall pre, pre `prefix_of` ops -> run_ok (srun (init_chain g) pre)) ->
+  covered (init_chain g) ops ->
+  bal_range (work (init_chain g)) ->
+  supply (work (init_chain g)) + gh_withdrawn gh < supply_bound ->
+  s = srun (init_chain g) ops /\
+  C02_equation g s p gh /\
+  bal_range (work s) /\
+  (forall a, 0 <= bal_of (work s) a < supply_bound) /\
+  0 <= gh_withdrawn gh /\ 0 <= gh_slashed gh /\ 0 <= gh_burned gh.
+Proof.
+  intros Hrun Hok Hcov Hr0 Hbound.
+  split; [apply (hrunE_srun _ _ _ _ _ _ _ Hrun)|].
+  assert (Hinv0 : hist_inv (supply (work (init_chain g))) (init_chain g, PIdle, ghost0)).
+  { cbn [hist_inv pending ghost0 gh_withdrawn gh_slashed gh_burned].
+    split; [lia|]. split; [exact Hr0|]. split; [lia|]. split; [lia|]. split; [lia|]. split; [discriminate|].
+    destruct (init_chain_frozen g) as (Hf & Hc). unfold base_of. rewrite Hc, Hf. reflexivity. }
+  pose proof (hist_runE _ _ _ _ _ _ _ _ Hrun (along_prefixes _ _ _ Hok) Hcov Hinv0 Hbound) as Hinv.
+  assert (Hpw : powers_ok (work s)).
+  { pose proof (hrunE_srun _ _ _ _ _ _ _ Hrun) as ->. apply (Hok ops). reflexivity. }
+  destruct (hist_inv_bal _ _ _ _ (gh_withdrawn gh) Hinv Hpw ltac:(lia)) as (_ & _ & _ & Hbal).
+  destruct Hinv as (Heq & Hr & Hw & Hsl & Hbn & _).
+  split; [exact Heq|]. split; [exact Hr|]. split; [intros a; specialize (Hbal a); lia|]. auto.
+Qed.
+Print Assumptions C02_history_evm.
+
+
+(* a run with a successful contract call (the effect of [deliver_evm_supply_example]) *)
+Definition hx_call : tx :=
+  {| t_type := TRX_CONTRACT; t_from := 1%N; t_to := 2%N; t_from_ok := true; t_to_ok := true; t_amount := 7;
+     t_price := 10; t_gas := 30000; t_nonce := 0; t_payload := PContract 21000; t_hash := 400%N; t_sigok := true;
+     t_evm := Some {| e_ok := true; e_gas := 25000; e_created := None;
+                      e_accts := [(1%N, 1000 * amountPerPower - 250000 - 7, 1); (2%N, 1000 * amountPerPower + 7, 0)] |} |}.
+Definition hx_ops_evm : list sop := [SBegin (demo_hdr 1 (Some 11%N)); SDeliver hx_call; SEnd; SCommit].
+
+Example C02_history_evm_example :
+  exists s,
+    hrunE (init_chain hx_genesis, PIdle, ghost0) hx_ops_evm = Some (s, PIdle, ghost0) /\
+    (forall pre, pre `prefix_of` hx_ops_evm -> run_ok (srun (init_chain hx_genesis) pre)) /\
+    covered (init_chain hx_genesis) hx_ops_evm /\
+    ~ native (srun (init_chain hx_genesis) (take 1 hx_ops_evm)) hx_call /\
+    bal_range (work (init_chain hx_genesis)) /\
+    supply (work (init_chain hx_genesis)) + 0 < supply_bound /\
+    supply (work s) = supply (work (init_chain hx_genesis)) /\
+    bal_of (work s) 11%N = 1000 * amountPerPower + 250000.
+Proof.
+  eexists. split; [vm_compute; reflexivity|].
+  split; [apply (alongb_prefixes run_okb run_ok _ run_okb_sound); vm_compute; reflexivity|].
+  split.
+  { cbn [covered hx_ops_evm]. split; [exact I|]. split; [|split; [exact I|split; [exact I|exact I]]].
+    split; [zclosed|]. split; [intros req Hty; discriminate Hty|]. right. right.
+    eexists. split; [reflexivity|].
+    split; [cbn; repeat constructor; set_solver|]. split; [zclosed|]. split; [|split; [vm_compute; discriminate|vm_compute; reflexivity]].
+    intros x Hx. cbn [e_accts] in Hx. apply elem_of_cons in Hx as [->|Hx]; [zclosed|].
+    apply elem_of_list_singleton in Hx as ->. zclosed. }
+  split; [vm_compute; discriminate|].
+  split; [apply bal_range_decide; vm_compute; reflexivity|].
+  split; [vm_compute; reflexivity|]. split; vm_compute; reflexivity.
+Qed.
+
+(* INTENDED: [begin_block_supply] without [hashes_unique].  The same genesis-hash collision strikes
+   when two genesis validators are jailed in one BeginBlock (both missed the previous block, window 1):
+   both stake lists are filed under key 0 of the frozen map; 100 units of power vanish with nothing
+   slashed. *)
+Theorem begin_block_collision_refuted :
+  exists s hd s',
+    begin_block s hd = (s', Ok 0) /\ h_height hd = last_height s + 1 /\
+    params_ok (gparams s) /\ bonded_nonneg (work s) /\ slashed_power s hd = 0 /\
+    supply (work s') = supply (work s) - 100 * amountPerPower /\ ~ hashes_unique (work s).
+Proof.
+  set (pr := {|
+    g_version := 1; g_maxValidatorCnt := 21; g_minValidatorStake := 7 * amountPerPower;
+    g_minDelegatorStake := 0; g_rewardPerPower := 1000; g_lazyRewardBlocks := 10; g_lazyApplyingBlocks := 10;
+    g_gasPrice := 10; g_minTrxGas := 4000; g_maxTrxGas := 25000000; g_maxBlockGas := 100000000;
+    g_minVotingPeriodBlocks := 1; g_maxVotingPeriodBlocks := 100; g_minSelfStakeRatio := 50;
+    g_maxUpdatableStakeRatio := 30; g_maxIndividualStakeRatio := 10000000; g_slashRatio := 50;
+    g_signedBlocksWindow := 1; g_minSignedBlocks := 1 |}).
+  set (g := {| gen_params := pr; gen_holders := [(1%N, 1000 * amountPerPower)];
+               gen_validators := [(11%N, 100); (12%N, 50)] |}).
+  set (s := srun (init_chain g) [SBegin (demo_hdr 1 (Some 11%N)); SEnd; SCommit]).
+  exists s, {| h_height := 2; h_proposer := Some 11%N; h_votes := [(11%N, 100, false); (12%N, 50, false)];
+               h_evidence := [] |}.
+  eexists. split; [vm_compute; reflexivity|]. split; [vm_compute; reflexivity|]. split; [zclosed|].
+  split.
+  { intros a d Hd. apply Forall_forall. intros x Hx.
+    assert (Hall : Forall (fun x => 0 <= s_power x) (bonded_stakes (work s))).
+    { apply (bool_decide_unpack _). vm_compute. exact I. }
+    rewrite Forall_forall in Hall. apply Hall. eapply elem_of_bonded; eassumption. }
+  split; [vm_compute; reflexivity|]. split; [vm_compute; reflexivity|].
+  intros (Hnd & _). revert Hnd. vm_compute. intros Hnd.
+  apply NoDup_cons in Hnd as (Hx & _). apply Hx. left.
+Qed.
+Print Assumptions begin_block_collision_refuted.
